@@ -34,7 +34,7 @@ CHECKS = {
              "boundary is a crash point, for either side) and its full projection must equal the spec's Restored(disk); "
              "the reload must not fail, the reloaded local commitment must be fully signed (script engine against the "
              "funding output), behaviours continue after real reconnects, and status updates issued through a STALE handle "
-             "(what the chain arbitrator/watcher hold) must leave the commitment state on disk untouched.",
+             "(what the chain arbitrator/watcher hold) must leave the commitment state on disk untouched. The destination side of the forwarding-package bookkeeping is part of the model (disk.dack / AckDest / DestAcksExact: the answer to a peer add is acked in the package of the outgoing channel it came from exactly when a signature of ours covers it, whatever became of other outgoing channels) and of the traces (ConformDack, SettleFailFilter read back from the database); OpenChannel.Refresh on a live channel (LiveRefresh) is an action of the model.",
         note="bolt kvdb only (etcd/postgres not available offline); each channeldb write is one atomic kvdb transaction "
              "and each API call makes at most one, so call boundaries are the crash points; forwarding packages are "
              "covered by the C08 harness, not here",
@@ -46,7 +46,7 @@ CHECKS = {
              "disconnect instant incl. repeated disconnects and disconnects during resync (exhaustive within bounds). On "
              "the code: TLC-generated behaviours with up to 5 disconnects are replayed on real channels (both sides "
              "reloaded, ChanSyncMsg/ProcessChanSyncMsg, all 7 types incl. taproot nonces); the list of retransmitted "
-             "messages in order, the absence of any error and the complete state after every step must equal the model's.",
+             "messages in order, the absence of any error and the complete state after every step must equal the model's. Link level: spec/Channel/LinkResync (two channelLinks over one channel across connection epochs: Add, Tick, Deliver of every message incl. the whole of resumeLink, Shutdown, Flap, Fee, hold invoices with Decide; NoFailure, QuiescentSynced, ExactlyOnce) is model-checked and TLC-generated behaviours are replayed on two real htlcswitch.channelLinks, traces validated by TLC (ConformLink, ConformFee, ConformHeights, ConformOut ...).",
         note="link-faithful schedules (receive-commit+revoke fused as in htlcswitch); the API-level finding F1 "
              "(sign-before-revoke peers, DESIGN 10.2) is outside the registered schedules; data-loss-protect field "
              "stripping variant not yet exercised",
@@ -63,7 +63,7 @@ CHECKS = {
              "1000-message rotation several times in both directions, sizes 0..65535), fixed tamper scenarios for every act, "
              "a free driver with byte-offset adversary moves and a Conn variant run on the real code; errors, pending-buffer "
              "accounting, pipe bytes, nonces, payload hashes and a learned bijection (key epoch -> real key fingerprint) are "
-             "validated by TLC with ROT=1000.",
+             "validated by TLC with ROT=1000. A delivered message is a value the caller keeps (held/Recheck/Release, ConformHeld); full-duplex use of one Machine with one action per section of WriteMessage/Flush/ReadHeader/ReadBody (HalvesDisjoint), the real halves parked at call-outs the code makes itself; brontide.Conn as a byte stream (CWrite chunking, CRead(want), ConnAccounting) judged through what Read returns.",
         note="AEAD/HKDF/ECDH assumed perfect; key pairs sampled; holds under the caller contract 'the reader stops at the first "
              "error' (peer.Brontide does) - the Machine does not latch read errors (observation, demonstrated at model level "
              "and on the code); known finding F16 (Conn.Read returns EOF for an empty message) reported as KNOWN-FINDING",
@@ -78,7 +78,7 @@ CHECKS = {
              "preimage), AmtPaidExact, ForwardOnly, ResolutionsAgree, ReplaySameVerdict; TLC-generated histories and a "
              "2-link concurrent free driver are executed on the real InvoiceRegistry over the KV store and over SQLite, every "
              "HtlcResolution (incl. later hodl resolutions) and the LookupInvoice projection after every event are validated "
-             "by TLC against the same spec for both stores.",
+             "by TLC against the same spec for both stores. The interceptor's answer (CancelSet, AmountPaid) is a parameter of every call incl. replays (ReplaySameVerdict over all answers; Eff(p)); AMP set lifecycles with CancelInvoice/CancelSet/timeouts after a set settled (ampsets).",
         note="blinded-path invoices, spontaneous AMP, KeysendHoldTime, the HTLC interceptor and the expiry watcher are not "
              "covered; Postgres unavailable; known finding F15 (keysend replay after a block is failed) is reported as "
              "KNOWN-FINDING; concurrent blocks are accepted iff some interleaving is a behaviour of the spec",
@@ -109,7 +109,7 @@ CHECKS = {
              "(Bounded, BothSigned, Agree, NoStall). TLC behaviours and a free driver are executed on real channel pairs of 8 "
              "channel types (MuSig2 for taproot) through CreateCloseProposal/CompleteCooperativeClose, on two real "
              "ChanClosers back to back, and on the RBF-coop transitions one round at a time; outputs, fees, every proposed "
-             "fee, raw-byte equality of both parties' transactions and script-engine validity are validated by TLC.",
+             "fee, raw-byte equality of both parties' transactions and script-engine validity are validated by TLC. Part III: one real RBF closer against an arbitrary honest BOLT-2 peer whose fee, lock time, delivery script and signature field are chosen by TLC (PeerOffer/NodeReply/NodeOffer/PeerReply/NodeSig; ExactReply incl. lock time, NamedRefusals); RbfM also on the three taproot types with real MuSig2 sessions.",
         note="negotiation assumes honest peers and in-order delivery; RBF-coop is modelled coarsely (one round, no protofsm "
              "loop); negotiation runs use the 10 BTC fixture (fees/equality compared, output values compared in part i); "
              "latent RBF lock-time mismatch when Environment.BlockHeight != 0 is recorded as an observation (DESIGN 0b)",
@@ -123,7 +123,7 @@ CHECKS = {
              "FFBelowEnd, FFAboveFloor, FFCeilByDeadline, PubFeeLeBudget, PubRateLeMax, PubNoDust, PubCeilByDeadline ... over "
              "start/end/width grids incl. the rounding classes and all conf-target walks; generated behaviours, directed "
              "schedules and a free driver are executed on the real sweep package and every recorded rate, fee, weight, output "
-             "and error class is validated by TLC.",
+             "and error class is validated by TLC. SweepLife: the UtxoSweeper retry history (LOffer, LRound, LHandle for every bump result, LSpend = third-party spend of a subset, publisher steps in between) on a real UtxoSweeper + BudgetAggregator + TxPublisher (LifeNoDecrease, LifeNotStranded, ConformLife); aux-sweeper extra output/budget (NextEndIsCeilingOfBuiltTx); relay fee above the ceiling and conf targets 1007-2016 (NextStartCappedAtEnd).",
         note="wallet, signer, estimator and mempool are the package's mocks; monitor goroutines are bypassed (handlers called "
              "synchronously); rates capped at 2e6 sat/kw for 32-bit TLC; F12/F13 were repaired (1bf8303, 8b358ae) and their "
              "directed schedules must now pass",
@@ -201,7 +201,7 @@ CHECKS = {
              "neighbourhood, signed inbound fees with rounding) with ideal and scaled words, Apalache checks the real-width "
              "(2^64/2^32) machine symbolically over the whole realistic box. Every lattice case is executed on a real "
              "channelLink (CheckHtlcForward and CheckHtlcTransit) and judged by TLC; seeded 64-bit cases and out-of-box "
-             "witnesses (fixed and Apalache-generated) are judged by Apalache in chunks.",
+             "witnesses (fixed and Apalache-generated) are judged by Apalache in chunks. (v) ForwardPolicyAux: the link-level decision on a node with an AuxTrafficShaper and HTLCs carrying custom records (CheckCustom, CheckBwAux; AuxDecisionAgrees) - 84 600 TLC-dumped cases through the real CheckHtlcForward/CheckHtlcTransit; (vi) SwitchInbound: the inbound fee used by first and RE-FORWARDED decisions (forwarding packages written by lnwallet, processRemoteAdds -> Switch.ForwardPackets, death between SetFwdFilter and ForwardPackets, Restart, UpdateIn; InboundFeeAsAdvertised); block epochs with decreasing heights (HeightIsCurrent).",
         note="must-agree domain = realistic box (out <= 1e12 msat, rates <= 1e6 ppm, heights < 2^31); no AuxTrafficShaper; "
              "F5 repaired (881cf42, its witnesses now must agree); known finding F5b (uint32 wrap near height 2^32)",
         technique="TLA+ spec + TLC exhaustive lattice + Apalache symbolic check + TLC/Apalache validation of real verdicts",
@@ -215,7 +215,7 @@ CHECKS = {
              "executed on the four real entry points and judged by TLC; lnwire framing (dispatch of all 65536 types/failure "
              "codes, 65533 bound). The codec laws (totality incl. allocation bound, bound, fixpoint, round trip, unknown odd "
              "record preserved) are checked by TLC on a TLC-enumerated mutation plan of 2426 cells x repetitions over all 42 "
-             "message types and 25 failure codes. NOT decided by a model: the ~60 field layouts themselves.",
+             "message types and 25 failure codes. NOT decided by a model: the ~60 field layouts themselves. Record-level cells for the TLV extension of every message type (rec-ins x 10 type classes x 6 length classes, rec-drop, rec-len; RecAccept, RecPreserved judged on bytes) and a model of the extension handling (WireExt: Put/Extract/Split/Encode; Lossless, EmptyKept).",
         note="level 'other': the law part is input exploration with a thin specification; tlv code is exercised inside /repo/tlv "
              "(the main module uses the cached tlv v1.4.0); F4 and F18 repaired, known finding F4b (non-P2P DVarBytes "
              "pre-allocation)",
@@ -231,7 +231,7 @@ CHECKS = {
              "are written from the statement over history variables. TLC enumerates every 1-HTLC cell x path (36k "
              "schedules) and bounded 2-3 HTLC universes; its counterexamples are exactly the known classes. All/sampled "
              "schedules run on a started real ChannelArbitrator with the real bolt log, each repeated 3x/8x (Go map order); "
-             "action maps, resolvers, fail-backs and state commits are validated by TLC.",
+             "action maps, resolvers, fail-backs and state commits are validated by TLC. Part C, the confirmation layer (ChainActionsConf): a real channel pair produces the local/remote/pending-remote commitments, Spend(c) calls the real chainWatcher.handleCommitSpend, Close hands the event to a real started ChannelArbitrator, Restart re-creates it from its log; WatcherNamesConfirmed, ResolverPerOutput, ResolverOwnsOutput, FailBackOnce, SettleOnce judged over the chain's truth.",
         note="resolver behaviour after insertion belongs to C13; HTLC sets static within a run; CommitSets built by the "
              "executor; F3c repaired (1eb7c38); known findings F3a, F3b, F3d reported per cell class as KNOWN-FINDING",
         technique="TLA+ spec + TLC enumeration of all cells and paths + execution of every schedule on the real arbitrator + TLC trace validation",
@@ -276,7 +276,7 @@ CHECKS = {
              "(parallel channels, asymmetric/disabled policies, signed inbound fees, one bound placed exactly at or 1 msat "
              "beyond what the path needs) and 8-10 requests each (limits at/1 below/1 above the cost, outgoing-channel sets, "
              "last hop, ignored nodes/pairs, self-payment, route hints); the real findPath+newRoute answers are validated by "
-             "TLC clause by clause.",
+             "TLC clause by clause. The request names its entry point (findPath+newRoute, FindRoute, RequestRoute, BuildRoute) and a possibly foreign source; the final-hop payload and the onion size are computed in TLA+ from the recorded payload contents (FinalPayload, PayloadFits <= 1300 with sphinx packing as oracle, SizeModelAgrees); RouteGenD generates diamond-with-tail graphs with limits between the candidate paths' needs and payloads filling 1300 bytes +-1.",
         note="a 'no route' answer is never judged (completeness/optimality not claimed); probabilities fixed to 1; no blinded "
              "tails; small amounts (64-bit arithmetic is C09's subject)",
         technique="TLA+ spec + TLC model checking of payability + TLC as generator and as judge of routes returned by the real pathfinder",
@@ -291,7 +291,7 @@ CHECKS = {
              "for all sequences <= 4-5 with replays. Really signed then corrupted messages are fed to the real gossiper with "
              "the package's graph source AND with the real graph.Builder + graphdb on bolt: simulated behaviours, a sweep of "
              "the universe after 7 preludes, and single-bit flips of every byte offset; results, graph projection and relayed "
-             "messages are validated by TLC.",
+             "messages are validated by TLC. Backend faults are funding classes (each chain query can succeed, answer negatively or fail without an answer); chain events on the real graph.Builder (Connect(S)/Disconnect as real FilteredBlock notifications; ConformChain); part 'proof' (GossipProof: announcement_signatures for own channels on the real WaitingProofStore; ProofAuthentic, RelayedHasProof, StoredProofVerifies).",
         note="gossip v1 only; messages fed one at a time (validation barrier concurrency not explored); rate limiter not in "
              "schedules; SQL graph store not run",
         technique="TLA+ spec + TLC model checking + TLC trace validation of really signed/corrupted messages on the real gossiper and graph builder",
@@ -302,7 +302,7 @@ CHECKS = {
              "and out-of-order secrets and the equivalence 'accepted by the bucket check <=> consistent with every "
              "earlier secret'; TLC-generated behaviours (H=5 from the top of the index space, H=48 started at "
              "structural bit patterns through NewRevocationStoreFromBytes) are replayed on the real "
-             "RevocationStore/Producer and every recorded answer is validated by TLC against the same spec.",
+             "RevocationStore/Producer and every recorded answer is validated by TLC against the same spec. A LiveRefresh action (OpenChannel.Refresh on a live channel) is interleaved; after it every received secret must still be reproducible through a stale handle (StaleSecretsRule).",
         note="hash values abstracted to (family,index) - SHA-256 assumed collision free; executor projection "
              "(lenBuckets, index, Encode length, LookUp==producer value) is trusted; part B (release rule: the "
              "secret in every revoke_and_ack is the one the model releases and the durable local commitment read back "
